@@ -220,7 +220,13 @@ AssignFields(m, vs, fields, i) ==
            isstr == vs[i].sfx = "$"
            val == IF isstr THEN MkStr(Unquote(f)) ELSE ParseField(f)
        IN  IF IsUnk(val) THEN [ok |-> FALSE, m |-> OutOfModel(m, "reply")]
-           ELSE IF IsErr(val) THEN [ok |-> FALSE, m |-> m]
+           \* the target's subscripts are evaluated before the field is converted (an array
+           \* may get its default dimensions even though the field is then refused)
+           ELSE IF IsErr(val) THEN
+                  [ok |-> FALSE,
+                   m |-> IF vs[i].k = "arr"
+                         THEN [m EXCEPT !.dims = Store(m, vs[i], Default(TypeOfName(vs[i].l, vs[i].sfx, m.deft))).m.dims]
+                         ELSE m]
            ELSE LET r == Store(m, vs[i], val) IN
                 IF ~r.ok THEN (IF IsUnk(r.v) THEN [ok |-> FALSE, m |-> OutOfModel(r.m, "reply")]
                                ELSE [ok |-> FALSE, m |-> r.m])
